@@ -172,6 +172,7 @@ struct LevelProbe : pgm::PGMIndex<K, Eps, ER, float> {
     using Base::Base;
     using Base::levels_offsets;
     using Base::segments;
+    static constexpr size_t kEpsilon = Eps, kEpsilonRecursive = ER;
 };
 
 /// Check one make_segmentation session against the segments emitted for it.
@@ -484,7 +485,14 @@ CaseResult run_seg(const RunCtx &ctx, TapeReader &t, unsigned size_hint) {
                 for (size_t l = 0; l < levels.size() && res.ok; ++l) {
                     auto &ls = levels[l];
                     std::sort(ls.begin(), ls.end(), [&](size_t a, size_t b) { return sessions[a].start < sessions[b].start; });
-                    size_t le = sessions[ls[0]].epsilon;
+                    // the property fixes the bound of every level: Epsilon at the bottom, EpsilonRecursive above it - not whatever
+                    // value the build happened to pass to the segmentation
+                    const size_t le = l == 0 ? Probe::kEpsilon : Probe::kEpsilonRecursive;
+                    if (sessions[ls[0]].epsilon != le) {
+                        res.fail("level " + std::to_string(l) + " was segmented with epsilon " + std::to_string(sessions[ls[0]].epsilon) + ", the index promises " +
+                                 (l == 0 ? "Epsilon = " : "EpsilonRecursive = ") + std::to_string(le) + " (segments cannot be maximal for that bound)");
+                        break;
+                    }
                     size_t fed = sessions[ls[0]].n;
                     // segment keys of this level as stored (drop the sentinel and the optional extra (last+1, 0, n) segment)
                     size_t b = idx.levels_offsets[l], e = idx.levels_offsets[l + 1];
